@@ -999,11 +999,11 @@ class C01(Check):
     assumptions = [
         "xml.etree and json are parameters: parse(serialise(t)) = t on the trees/dicts the encoders build "
         "(checked as a side oracle on every generated case)",
-        "SimpleMRS: the regex lexer is modelled character by character (Lexer.lean, ASCII digits for \\d) and "
-        "compared with the real lexer on strings over the token alphabet and on the real encoder's text; the "
-        "single-line layout `render` is compared with encode(indent=False); the indented layouts are not "
-        "modelled (the real lexer's token stream of the real text is what the token encoder is compared with)",
-        "Indexed MRS: the regex lexer and the text layout are not modelled (real lexer's token stream)",
+        "SimpleMRS and Indexed MRS: the regex lexers are modelled character by character (Lexer.lean, IxLexer.lean; "
+        "ASCII digits for \\d) and compared with the real lexers on strings over the token alphabets and on the real "
+        "encoders' texts in every layout; the un-indented layouts `render`/`renderIx` and the indented SimpleMRS "
+        "layout `renderInd` are compared with the real encode() text; the indented Indexed MRS and MRX layouts are "
+        "not modelled (the real lexer's token stream / the ElementTree of the real text is what is compared)",
         "Indexed MRS: the model receives the SEM-I as tables (synopses, property lists per sort, descendants of "
         "both hierarchies) computed by the harness from the same literals the SemI object is built from",
         "case folding (str.lower/upper) is modelled on ASCII; generated atoms that get case-folded contain only "
@@ -1071,6 +1071,19 @@ class C01(Check):
                  "_a_N_1", "_a b_n_1", "_\xe9_v_2", "LBL:", "a:", ":", "::", "a:b:", "\"a:", "h1", "x", "\t", "\xa0",
                  "\u3000", " ", "  ", "\n", "\r", "\x0b", "\u2028", "\xe9", "#", "@", "-", "0", "12", "a<b", "a<0:5> ", "a<0:5>",
                  "a>", "a]", "a[", "x<1>\t", "x<1>\xa0", "<0:5>\t", "\\", "rel", "_rel", "TOP:", "qeq"]
+
+    IXPIECES = ["<", ">", "{", "}", "(", ")", ",", ":", "<0:5>", "<-1:-1>", "<1:>", "<5:6", "<a:b>", "<1#2>", "<@3>", "<1 2>",
+                "\"", "\"a\\\"b\"", "\"a\\", "\"x y\"", "\"\"", "h1", "e2", "_dog_n_1", "udef_q", "PRES", "+", "-", "qeq", "None",
+                " ", "  ", "\n", "\t", "\xa0", "\u3000", "\r", "'", "/", ";", "=", "[", "]", "a'b", "a/b", "a;b", "a=b", "x[", "\xe9",
+                "5", "12", "5:6", "h1:p<0:3>(e2,x4)", "<h0,e2:PROP,{", "},{h0 qeq h1}>", "@", "#", "\\", "&"]
+
+    def lexix_case(self, rng):
+        n = rng.choice([1, 2, 2, 3, 4, 5, 6, 8])
+        out = []
+        for _ in range(n):
+            out.append(rng.choice(self.IXPIECES))
+            out.append(rng.choice([" ", "", "", "", "\n"]))
+        return {"kind": "lexix", "s": cps("".join(out))}
 
     def lex_case(self, rng):
         n = rng.choice([1, 2, 2, 3, 4, 5, 6, 8])
@@ -1146,6 +1159,8 @@ class C01(Check):
             yield {"kind": "lnk", "s": cps(s)}
         for _ in range(400 if tier == "quick" else 6000):
             yield self.lex_case(rng)
+        for _ in range(250 if tier == "quick" else 4000):
+            yield self.lexix_case(rng)
         if tier != "quick":
             for a in self.LEXPIECES:
                 for b in self.LEXPIECES:
@@ -1168,7 +1183,15 @@ class C01(Check):
             elif r < 0.56:
                 yield self.rt_case(rng, "json")
             elif r < 0.66:
-                yield self.rt_case(rng, "indexed")
+                c_ = self.rt_case(rng, "indexed")
+                yield c_
+                if c_["items"] and rng.random() < 0.6:
+                    try:
+                        yield {"kind": "lexix", "s": cps(indexedmrs.dumps(
+                            [m_from_wire(j) for j in c_["items"]], ix_semi(c_["semi"]), properties=c_["props"],
+                            lnk=c_["lnk"], indent=rng.choice([True, False, 3])))}
+                    except Exception:
+                        pass
             elif r < 0.70:
                 yield self.rt_case(rng, rng.choice(["simple", "json", "mrx"]), n_items=1, family="unnormalised")
             elif r < 0.715:
@@ -1235,7 +1258,9 @@ class C01(Check):
                 return {"err": errname(e)}
             key = {"simple": "toks", "json": "dict", "mrx": "xml", "indexed": "toks"}[codec]
             rekey = {"simple": "retoks", "json": "redict", "mrx": "rexml", "indexed": "retoks"}[codec]
-            lay = {"text": cps(text)} if codec == "simple" else {}
+            lay = {"text": cps(text)} if codec in ("simple", "indexed") else {}
+            if codec == "simple":
+                lay["textind"] = cps(c.encode(m_from_wire(case["items"][0]), properties=props, lnk=lnk, indent=True))
             try:
                 d = c.decode(text)
             except Exception as e:
@@ -1257,6 +1282,11 @@ class C01(Check):
         if k == "lex":
             try:
                 return {"ok": real_lex(uncps(case["s"]))}
+            except MRSSyntaxError:
+                return {"err": "MRSSyntaxError"}
+        if k == "lexix":
+            try:
+                return {"ok": real_lex_ix(uncps(case["s"]))}
             except MRSSyntaxError:
                 return {"err": "MRSSyntaxError"}
         if k == "parse":
@@ -1320,6 +1350,8 @@ class C01(Check):
             return {"op": "esc", "s": case["s"]}
         if k == "lex":
             return {"op": "lex", "s": case["s"]}
+        if k == "lexix":
+            return {"op": "lexix", "s": case["s"]}
         if k == "lnk":
             s = uncps(case["s"])
             if not all(ord(c) < 128 for c in s) or re.search(r"[+_\t]|\d [<>:#]|[<:#@] \d|^<? +|- ", s):
@@ -1343,6 +1375,9 @@ class C01(Check):
             if len(answer.get("toks") or []) <= 2 or not case.get("expressible", True):
                 answer = {k_: v for k_, v in answer.items() if k_ != "text"}
                 expected = {k_: v for k_, v in expected.items() if k_ != "text"}
+            if not case.get("expressible", True):
+                answer = {k_: v for k_, v in answer.items() if k_ != "textind"}
+                expected = {k_: v for k_, v in expected.items() if k_ != "textind"}
         if (case["kind"] == "rt" and case["codec"] == "simple" and not case.get("expressible", True)
                 and isinstance(answer, dict) and isinstance(expected, dict)):
             # un-normalised predicates are outside the quantifier; whether the lexer calls the unquoted
@@ -1802,6 +1837,11 @@ class C01(Check):
                 inc("parse:many:" + ("ok%d" % min(len(res["many"]["ok"]), 4) if "ok" in res["many"] else res["many"]["err"]))
                 for t in res["toks"]:
                     inc("ptok:" + t[0])
+        elif k == "lexix" and isinstance(res, dict):
+            for t in res.get("ok", []):
+                inc("lexixtok:" + t[0])
+            if "err" in res:
+                inc("lexix:error")
         elif k == "lex" and isinstance(res, dict):
             for t in res.get("ok", []):
                 inc("lextok:" + t[0])
